@@ -5,7 +5,7 @@
    FAILS the property on the unchanged code and is proved to fail: C12_names_explicit_refuted
    (recorded finding names-explicit-secret-silence). *)
 From IRC Require Import Str Wild Glob Parse Reply State Handlers Step.
-From IRCP Require Import InvDefs SecretP ViewsP.
+From IRCP Require Import InvDefs SecretP ViewsP InvisibleP.
 From Coq Require Import Lia.
 From stdpp Require Import gmap.
 
@@ -83,6 +83,40 @@ Theorem C12_invisible_not_in_names_partial : forall s n u r,
   users s !! n = Some u -> um_invisible (u_modes u) = true -> name_visible s false (n, r) = false.
 Proof. intros s n u r Hu Hi. unfold name_visible. cbn. rewrite Hu, Hi. reflexivity. Qed.
 
+(* WHO and the invisible user: its entry in every WHO answer (by nick, by mask, through a channel) of a client sharing no
+   channel with it is empty; *)
+Theorem C12_who_entry_of_invisible_is_empty_partial : forall c client channel unick u viewer,
+  um_invisible (u_modes u) = true -> sets_disjoint (u_chans u) (u_chans viewer) = true ->
+  who_line cfg c client channel unick u viewer = [].
+Proof. exact (who_line_invisible cfg). Qed.
+
+(* a wildcard WHO is answered - up to the order of the 352 lines - as in the world where the user is not connected, *)
+Theorem C12_who_wildcard_hides_invisible_partial : forall s c nick viewer mask n u,
+  c_nick c = Some nick -> users s !! nick = Some viewer -> n <> nick -> users s !! n = Some u ->
+  um_invisible (u_modes u) = true -> sets_disjoint (u_chans u) (u_chans viewer) = true ->
+  contains c_star mask || contains c_qmark mask = true ->
+  exists body body', body ≡ₚ body' /\
+    outs (process_who cfg i s c mask) = Some (mine cfg i (body ++ [rpl_endofwho (client_name c) mask])) /\
+    outs (process_who cfg i (without_user n s) c mask) = Some (mine cfg i (body' ++ [rpl_endofwho (client_name c) mask])).
+Proof. exact (who_wildcard_hides_invisible cfg i). Qed.
+
+(* and WHO <its nick> exactly as for a nick that is not connected *)
+Theorem C12_who_nick_hides_invisible_partial : forall s c nick viewer n u,
+  c_nick c = Some nick -> users s !! nick = Some viewer -> n <> nick -> users s !! n = Some u ->
+  um_invisible (u_modes u) = true -> sets_disjoint (u_chans u) (u_chans viewer) = true ->
+  contains c_star n || contains c_qmark n = false -> validate_channel n = false ->
+  outs (process_who cfg i (without_user n s) c n) = outs (process_who cfg i s c n).
+Proof. exact (who_nick_hides_invisible cfg i). Qed.
+
+(* NAMES without argument: the same lines - up to the order of the channels - as in the world without the secret channel *)
+Theorem C12_names_all_hides_partial : forall s c nick ch co r r',
+  c_nick c = Some nick -> chans s !! ch = Some co -> cm_secret (ch_modes co) = true -> nick ∉ dom (ch_users co) ->
+  process_names cfg i s c [] = Ok r -> process_names cfg i (without ch s) c [] = Ok r' ->
+  exists body body', body ≡ₚ body' /\
+    h_out r = mine cfg i (body ++ [rpl_endofnames (client_name c) (lit "*")]) /\
+    h_out r' = mine cfg i (body' ++ [rpl_endofnames (client_name c) (lit "*")]).
+Proof. exact (names_all_hides cfg i). Qed.
+
 End C12.
 
 Print Assumptions C12_list_explicit_partial.
@@ -94,3 +128,7 @@ Print Assumptions C12_who_any_mask_partial.
 Print Assumptions C12_whois_never_lists_secret_partial.
 Print Assumptions C12_invisible_hidden_partial.
 Print Assumptions C12_invisible_not_in_names_partial.
+Print Assumptions C12_who_entry_of_invisible_is_empty_partial.
+Print Assumptions C12_who_wildcard_hides_invisible_partial.
+Print Assumptions C12_who_nick_hides_invisible_partial.
+Print Assumptions C12_names_all_hides_partial.
